@@ -144,8 +144,16 @@ type Term struct {
 func (t *Term) IsConst() bool { return t.Op == OpConst }
 
 // Ctx is a hash-consing term factory. Not safe for concurrent use.
+type termKey struct {
+	op         Op
+	sort       Sort
+	val        uint64
+	name       string
+	a0, a1, a2 int
+}
+
 type Ctx struct {
-	tab   map[string]*Term
+	tab   map[termKey]*Term
 	next  int
 	Vars  []*Term // in creation order
 	varBy map[string]*Term
@@ -154,7 +162,7 @@ type Ctx struct {
 }
 
 func NewCtx() *Ctx {
-	c := &Ctx{tab: map[string]*Term{}, varBy: map[string]*Term{}}
+	c := &Ctx{tab: map[termKey]*Term{}, varBy: map[string]*Term{}}
 	c.True = c.Const(Bool, 1)
 	c.False = c.Const(Bool, 0)
 	return c
@@ -169,12 +177,20 @@ func mask(s Sort) uint64 {
 }
 
 func (c *Ctx) intern(t *Term) *Term {
-	var sb strings.Builder
-	fmt.Fprintf(&sb, "%d:%d:%x:%s", t.Op, t.Sort, t.Val, t.Name)
-	for _, a := range t.Args {
-		fmt.Fprintf(&sb, ",%d", a.ID)
+	if len(t.Args) > 3 {
+		panic("sym: more than 3 args")
 	}
-	k := sb.String()
+	k := termKey{op: t.Op, sort: t.Sort, val: t.Val, name: t.Name}
+	switch len(t.Args) {
+	case 3:
+		k.a2 = t.Args[2].ID
+		fallthrough
+	case 2:
+		k.a1 = t.Args[1].ID
+		fallthrough
+	case 1:
+		k.a0 = t.Args[0].ID
+	}
 	if old, ok := c.tab[k]; ok {
 		return old
 	}
@@ -923,3 +939,65 @@ func (t *Term) String() string {
 }
 
 var _ = bits.Len
+
+// EvalTree evaluates t treating every variable as having value x, without
+// memoisation (for small single-variable terms). budget bounds the nodes
+// visited; ok=false if exceeded.
+func EvalTree(t *Term, x uint64, budget *int) (uint64, bool) {
+	ok := true
+	var ev func(*Term) uint64
+	ev = func(n *Term) uint64 {
+		if !ok {
+			return 0
+		}
+		*budget--
+		if *budget < 0 {
+			ok = false
+			return 0
+		}
+		switch n.Op {
+		case OpConst:
+			return n.Val
+		case OpVar:
+			return x & mask(n.Sort)
+		}
+		return evalNode(n, ev)
+	}
+	v := ev(t)
+	return v, ok
+}
+
+// CanonKey serialises a single-variable term with the variable anonymised, for
+// use as a cache key across term contexts. ok=false if the term is too big.
+func CanonKey(t *Term, limit int) (string, bool) {
+	var sb strings.Builder
+	n := 0
+	var w func(*Term) bool
+	w = func(x *Term) bool {
+		n++
+		if n > limit {
+			return false
+		}
+		switch x.Op {
+		case OpConst:
+			fmt.Fprintf(&sb, "k%d:%x", x.Sort, x.Val)
+			return true
+		case OpVar:
+			fmt.Fprintf(&sb, "$%d", x.Sort)
+			return true
+		}
+		fmt.Fprintf(&sb, "(%d:%d", x.Op, x.Sort)
+		for _, a := range x.Args {
+			sb.WriteByte(' ')
+			if !w(a) {
+				return false
+			}
+		}
+		sb.WriteByte(')')
+		return true
+	}
+	if !w(t) {
+		return "", false
+	}
+	return sb.String(), true
+}
